@@ -87,6 +87,18 @@ char const *g_vb; size_t g_vn, g_vi;
 #define M5(j,a,b,c,d,e) ((j) + 5 <= g_vn && g_vb[(j)] == (a) && g_vb[(j)+1] == (b) && g_vb[(j)+2] == (c) && g_vb[(j)+3] == (d) && g_vb[(j)+4] == (e))
 /* the entity names an attribute value may contain: &amp; &lt; &gt; &quot; &apos; &#x27; &#X27; &#39; */
 #define ENT_AT(j) (M4(j,'a','m','p',';') || M3(j,'l','t',';') || M3(j,'g','t',';') || M5(j,'q','u','o','t',';') || M5(j,'a','p','o','s',';') || M5(j,'#','x','2','7',';') || M5(j,'#','X','2','7',';') || M4(j,'#','3','9',';'))
+/* what a TRUE answer of ends_with(cursor, end, literal) means, at the cursor offset o (relative to g_vb): used verbatim in the contract of xss_ends_with (proved) and in ends_with_model */
+#define EW_FACTS(o, end_, v) (LITLEN(v) <= OFF(end_) - OFF(g_vb) - (o) && (LITLEN(v) > 0 ==> g_vb[(o)] == (v)[0]) && (LITLEN(v) > 1 ==> g_vb[(o) + 1] == (v)[1]) && (LITLEN(v) > 2 ==> g_vb[(o) + 2] == (v)[2]) && \
+                              (LITLEN(v) > 3 ==> g_vb[(o) + 3] == (v)[3]) && (LITLEN(v) > 4 ==> g_vb[(o) + 4] == (v)[4]))
+/* executable restatement of the postcondition proved for xss_ends_with (job xss_ends_with): true only under EW_FACTS, the cursor then moves by the literal's length; false leaves it alone.
+   (A contract REPLACEMENT of the call is vacuous in the loop-contract context of cbmc 6.11: the cursor equation is never satisfiable there, DESIGN.md section 4.) */
+static bool ends_with_model(char const **begin, char const *end, char const *value)
+{
+  __CPROVER_assert(SAME(*begin, end) && SAME(*begin, g_vb) && OFF(g_vb) <= OFF(*begin) && OFF(*begin) <= OFF(end) && LITLEN(value) <= 5, "ends_with is called inside its precondition");
+  int r; if(!r) return 0;
+  __CPROVER_assume(EW_FACTS(OFF(*begin) - OFF(g_vb), end, value));
+  *begin = *begin + LITLEN(value); return 1;
+}
 #define VCH_OK(i) (g_vb[(i)] != '<' && g_vb[(i)] != '>' && (g_vb[(i)] == '&' ==> ENT_AT((i) + 1)))
 '''
 functions = [
@@ -105,12 +117,22 @@ functions = [
 __CPROVER_requires(__CPROVER_rw_ok(begin, sizeof(*begin)) && SAME(*begin, end) && SAME(*begin, g_vb) && OFF(g_vb) <= OFF(*begin) && OFF(*begin) <= OFF(end) && OFF(end) <= BUF_CAP && OFF(end) <= __CPROVER_OBJECT_SIZE(end) && LITLEN(value) <= 5)
 __CPROVER_assigns(*begin)
 /* true: the bytes at the cursor are exactly the literal, and the cursor moved past them; false: the cursor did not move */
-__CPROVER_ensures(__CPROVER_return_value ==> (*begin == __CPROVER_old(*begin) + LITLEN(value) && LITLEN(value) <= OFF(end) - OFF(__CPROVER_old(*begin)) &&
-                  (LITLEN(value) > 0 ==> g_vb[OFF(__CPROVER_old(*begin)) - OFF(g_vb)] == value[0]) && (LITLEN(value) > 1 ==> g_vb[OFF(__CPROVER_old(*begin)) - OFF(g_vb) + 1] == value[1]) &&
-                  (LITLEN(value) > 2 ==> g_vb[OFF(__CPROVER_old(*begin)) - OFF(g_vb) + 2] == value[2]) && (LITLEN(value) > 3 ==> g_vb[OFF(__CPROVER_old(*begin)) - OFF(g_vb) + 3] == value[3]) &&
-                  (LITLEN(value) > 4 ==> g_vb[OFF(__CPROVER_old(*begin)) - OFF(g_vb) + 4] == value[4])))
+__CPROVER_ensures(__CPROVER_return_value ==> (*begin == __CPROVER_old(*begin) + LITLEN(value) && EW_FACTS(OFF(__CPROVER_old(*begin)) - OFF(g_vb), end, value)))
 __CPROVER_ensures(!__CPROVER_return_value ==> *begin == __CPROVER_old(*begin))
 '''),
+    dict(cname='xss_validate_property_value', file=X, locate=lit('bool validate_property_value(char const *begin,char const *end)'),
+         sig='bool xss_validate_property_value(char const *begin, char const *end)', rewrites=[(r'\bends_with\(begin,end,', 'ends_with_model(&begin, end, ', 1)],
+         loops={0: r'''
+__CPROVER_assigns(begin)
+__CPROVER_loop_invariant(SAME(begin, g_vb) && OFF(begin) >= OFF(g_vb) && OFF(begin) <= OFF(end) && (g_vi < OFF(begin) - OFF(g_vb) ==> VCH_OK(g_vi)))
+__CPROVER_decreases(OFF(end) - OFF(begin))'''},
+         contract=r'''
+__CPROVER_requires(VALID_RANGE(begin, end) && begin == g_vb && g_vn == OFF(end) - OFF(begin) && g_vn <= BUF_CAP)
+__CPROVER_assigns()
+/* C04: an accepted attribute value contains no < and no >, and every & in it starts one of the eight white-listed entities that lies entirely inside the value (arbitrary ghost index) */
+__CPROVER_ensures(__CPROVER_return_value ==> (g_vi < g_vn ==> VCH_OK(g_vi)))
+'''),
+
     dict(cname='xss_split_to_parts', file=X, locate=lit('void split_to_parts(char const *begin,char const *end,std::vector<entry> &tags)'),
          sig='void xss_split_to_parts(char const *begin, char const *end)',
          rewrites=[(r'tags\.push_back\(entry\(', 'tags_push((', 9), (r'tags\.clear\(\);', 'tags_clear();', 1), (r'tags\.reserve\(count\);', 'tags_reserve(count);', 1)],
@@ -182,6 +204,9 @@ jobs = [
     SYM_BUF(char, b, n, BUF_CAP); size_t off; __CPROVER_assume(off <= n); char const *cur = b + off; int w; g_vb = b; g_vn = n;
     char const *lit = w == 0 ? "amp;" : w == 1 ? "lt;" : w == 2 ? "gt;" : w == 3 ? "quot;" : w == 4 ? "apos;" : w == 5 ? "#x27;" : w == 6 ? "#X27;" : "#39;";
     xss_ends_with(&cur, b + n, lit); VERIF_REACH;'''),
+    dict(name='xss_validate_property_value', props=P, enforce='xss_validate_property_value', timeout=1500, object_bits=12, harness=r'''
+    SYM_BUF(char, b, n, BUF_CAP); size_t k; g_vi = k; g_vb = b; g_vn = n;
+    xss_validate_property_value(b, b + n); VERIF_REACH;'''),
     dict(name='xss_split_to_parts', props=P, kind='plainloops', per_property=r'^xss_split_to_parts\.|^tags_push\.assertion', pp_chunk=16, pp_workers=14, timeout=300, cost=10,
          complete_note='all 7 loops closed by loop contracts (goto-instrument --apply-loop-contracts); obligations are solved in chunks of 16 per cbmc process (solving them all in one process does not finish)',
          harness=r"""
@@ -208,7 +233,7 @@ jobs = [
 UNIT = dict(
     name='xss', pre=PRE, functions=functions, jobs=jobs,
     regions=[dict(name='html_data_type', file=X, start=r'typedef enum \{\s*invalid_data', end=r'\} html_data_type;')],
-    trusted=['xss: std::vector<entry>::push_back is a stub that asserts the tiling and the per-part classification at an arbitrary ghost offset (R10); reserve/clear are no-ops',
+    trusted=['xss: validate_property_value calls ends_with_model, an executable restatement of the postcondition proved for xss_ends_with (shared macro EW_FACTS), because a contract replacement of that call is vacuous inside the loop contract (cbmc 6.11)', 'xss: std::vector<entry>::push_back is a stub that asserts the tiling and the per-part classification at an arbitrary ghost offset (R10); reserve/clear are no-ops',
              'xss: memcmp/strlen are cbmc built-in models',
              'xss: validate_nesting: std::stack<unsigned> is an array + depth; three HISTORY facts of a stack whose pushes are strictly increasing (asserted at every push) are ASSUMED where the top is read: '
              'the top was pushed earlier (below the push bound), lower slots hold smaller values, and a value that was popped (the opener of the observed pair) or never pushed (the observed close tag) is not on the stack; '
